@@ -10,10 +10,31 @@ TRANSPARENT_CALLS = flow.VIEW_CALLS
 
 
 class Expr:
-    def __init__(self, F, f, inline_getters=True, max_depth=200):
+    def __init__(self, F, f, inline_getters=True, max_depth=200, closure_env=False):
         self.F, self.f = F, f
         self.inline_getters = inline_getters
         self.max_depth = max_depth
+        # closure_env: inside a closure, a captured variable `(*_1).k` is replaced by the enclosing function's expression for
+        # what was captured, and the item parameter of a closure handed to an iterator adaptor by `next(<that iterator>)` - the
+        # body then reads like the body of the equivalent `for` loop
+        self.closure_env = closure_env and "{closure" in f.path
+        self._parent = None
+        self._cap = None
+        self._item_src = None
+        if self.closure_env:
+            parent = F.fns.get(f.j.get("parent_fn")) or F.fns.get(f.path.rsplit("::{closure", 1)[0])
+            if parent is not None:
+                self._parent = Expr(F, parent, inline_getters, max_depth, closure_env=True)
+                for b, i, st in parent.iter_stmts():
+                    if st["k"] == "assign" and st["rv"]["k"] == "aggregate" and st["rv"].get("agg") == "closure" and st["rv"].get("path") == f.path:
+                        self._cap = st["rv"]["ops"]
+                for b, t in parent.calls():
+                    if parent.blocks[b]["cleanup"] or len(t["args"]) < 2:
+                        continue
+                    for a in t["args"][1:]:
+                        pl = core.op_place(a)
+                        if pl is not None and not pl["proj"] and parent.locals[pl["local"]]["ty"].get("path") == f.path:
+                            self._item_src = t["args"][0]
 
     def of_operand(self, o, depth=0):
         if depth > self.max_depth:
@@ -41,6 +62,9 @@ class Expr:
                 continue
             if k == "field":
                 nm = e.get("name", str(e["i"]))
+                if base == ("closure-env",) and self._cap is not None and str(nm).isdigit() and int(nm) < len(self._cap):
+                    base = self._parent.of_operand(self._cap[int(nm)], depth + 1)
+                    continue
                 # component of a checked-arithmetic pair / tuple
                 if base[0] == "checked" and nm in ("0", 0):
                     base = base[1]
@@ -67,6 +91,11 @@ class Expr:
         ds = [d for d in f.defs_of(l) if not f.blocks[d[0]]["cleanup"]]
         if not ds:
             if 1 <= l <= f.arg_count:
+                if self.closure_env and self._parent is not None:
+                    if l == 1 and self._cap is not None:
+                        return ("closure-env",)
+                    if l == f.arg_count and l >= 2 and self._item_src is not None:
+                        return ("field", ("variant", ("call", "closure-item::next", (self._parent.of_operand(self._item_src, depth + 1),)), "Some"), "0")
                 return ("arg", l)
             return ("var", l)
         if len(ds) != 1:
